@@ -12,14 +12,14 @@ import (
 
 type rootGeneratorSimple struct {
 	counter       *counter
-	scanner       *bufio.Scanner
+	scanner       *lineScanner
 	nodeGenerator *nodeGenerator
 }
 
 func newRootGeneratorSimple(r io.Reader) *rootGeneratorSimple {
 	return &rootGeneratorSimple{
 		counter:       newCounter(),
-		scanner:       bufio.NewScanner(r),
+		scanner:       newLineScanner(r),
 		nodeGenerator: newNodeGenerator(),
 	}
 }
